@@ -15,6 +15,13 @@ static size_t stream_compress(const void* src, size_t srcSize, void* dst, size_t
 	ZSTD_inBuffer in = { src, srcSize, 0 };
 	ZSTD_outBuffer out = { dst, dstCap, 0 };
 	size_t r;
+	// first feed the data without ending the frame (casync: ZSTD_compressStream per buffer, then ZSTD_endStream): only
+	// then is the source size unknown when the header is written; a first call with ZSTD_e_end is a one-shot compression
+	// and yields a single-segment frame with a content size.
+	do {
+		r = ZSTD_compressStream2(c, &out, &in, ZSTD_e_continue);
+		if (ZSTD_isError(r)) { ZSTD_freeCCtx(c); return r; }
+	} while (in.pos < in.size);
 	do {
 		r = ZSTD_compressStream2(c, &out, &in, ZSTD_e_end);
 		if (ZSTD_isError(r)) { ZSTD_freeCCtx(c); return r; }
